@@ -279,7 +279,13 @@ pub fn finish(info: &RunInfo, mon: &Mon) -> i32 {
     // observed-too-little guard
     let mut starving = vec![];
     for (name, min) in &info.minimums {
-        let have = if name == "oracle_evals" { mon.oracle_evals } else { mon.get(name) };
+        let have = if name == "oracle_evals" {
+            mon.oracle_evals
+        } else if let Some(set) = name.strip_prefix("set:") {
+            mon.sets.get(set).map(|s| s.len() as u64).unwrap_or(0)
+        } else {
+            mon.get(name)
+        };
         if have < *min {
             starving.push(format!("{}={}<{}", name, have, min));
         }
